@@ -1956,8 +1956,9 @@ Proof.
   - (* LAutoDelete *)
     destruct (autodel s) as [|qn rest]; [exact H|].
     assert (H0 : HI (s <| autodel := rest |>)) by (eapply HI_FR; [exact H|apply FR_same; reflexivity]).
-    pose proof (HB_vhost_delete_queue (negb (fx_delete_checks_first fx)) (s <| autodel := rest |>) qn false false) as Hd.
-    destruct (vhost_delete_queue _ (s <| autodel := rest |>) qn false false) as [[s1 e1] r1]. cbn [fst] in *. eapply HI_HB; eauto.
+    destruct (get_queue _ qn) as [qu0|]; [|exact H0]. destruct (q_autodel qu0); [|exact H0].
+    pose proof (HB_vhost_delete_queue (negb (fx_delete_checks_first fx)) (s <| autodel := rest |>) qn true false) as Hd.
+    destruct (vhost_delete_queue _ (s <| autodel := rest |>) qn true false) as [[s1 e1] r1]. cbn [fst] in *. eapply HI_HB; eauto.
   - (* LPersistTick *) eapply HI_HB; [exact H|exact (HB_persist_tick cfg fx s)].
   - (* LRelay *)
     destruct (relay s) as [|u rest]; [exact H|].
@@ -2338,8 +2339,10 @@ Proof.
     + apply GR_HB; eapply HB_delivered; exact D.
   - cbn [fst]. apply GR_FR. apply FR_queue_loop_turn.
   - destruct (autodel s) as [|qn rest]; [apply GR_refl|].
-    pose proof (HB_vhost_delete_queue (negb (fx_delete_checks_first fx)) (s <| autodel := rest |>) qn false false) as Hd.
-    destruct (vhost_delete_queue _ (s <| autodel := rest |>) qn false false) as [[s1 e1] r1]. cbn [fst] in *.
+    destruct (get_queue _ qn) as [qu0|]; [|apply GR_FR; apply FR_same; reflexivity].
+    destruct (q_autodel qu0); [|apply GR_FR; apply FR_same; reflexivity].
+    pose proof (HB_vhost_delete_queue (negb (fx_delete_checks_first fx)) (s <| autodel := rest |>) qn true false) as Hd.
+    destruct (vhost_delete_queue _ (s <| autodel := rest |>) qn true false) as [[s1 e1] r1]. cbn [fst] in *.
     apply (GR_trans s (s <| autodel := rest |>)); [apply GR_FR; apply FR_same; reflexivity|apply GR_HB; exact Hd].
   - apply GR_HB. exact (HB_persist_tick cfg fx s).
   - destruct (relay s) as [|u rest]; [apply GR_refl|].
@@ -3099,8 +3102,9 @@ Proof.
     destruct (_ <? _); [apply nd_nil|apply nd_finish].
   - apply nd_nil.
   - destruct (autodel s) as [|qn rest]; [apply nd_nil|].
-    pose proof (nd_vhost_delete_queue (negb (fx_delete_checks_first fx)) (s <| autodel := rest |>) qn false false) as Hd.
-    destruct (vhost_delete_queue _ (s <| autodel := rest |>) qn false false) as [[s1 e1] r1]. exact Hd.
+    destruct (get_queue _ qn) as [qu0|]; [|apply nd_nil]. destruct (q_autodel qu0); [|apply nd_nil].
+    pose proof (nd_vhost_delete_queue (negb (fx_delete_checks_first fx)) (s <| autodel := rest |>) qn true false) as Hd.
+    destruct (vhost_delete_queue _ (s <| autodel := rest |>) qn true false) as [[s1 e1] r1]. exact Hd.
   - apply nd_nil.
   - destruct (relay s) as [|u rest]; [apply nd_nil|]. destruct (get_msg _ u) as [m|]; [|apply nd_nil].
     destruct (m_conf m) as [[[? ?] ?]|]; apply nd_nil.
